@@ -79,5 +79,14 @@ def main(tier):
             bad += 1
     for row in rows:
         print(json.dumps(row))
+    # deductive legs, strictly: every proof must go through, and the mutilated modules must NOT be provable
+    from . import proofs
+    for prop in sorted(proofs.TLAPS):
+        for d in proofs.run_for(prop, strict=True):
+            print(json.dumps({"property": prop, **d}))
+    for row in proofs.negative_controls():
+        print(json.dumps(row))
+        if row["proved"]:
+            bad += 1
     print(f"selftest: {len(rows)} trace specifications, {bad} not bound")
     return common.EXIT_OK if bad == 0 else common.EXIT_VIOLATION
